@@ -494,7 +494,14 @@ def run_case(rec, case: dict) -> None:
             except Exception as e:  # an operation failing in an undocumented way is not a state change
                 label = f"{name}:raised:{type(e).__name__}"
                 rec.mon(f"op_raised:{name}:{type(e).__name__}")
-            after = state(chart, twin)
+            try:
+                after = state(chart, twin)
+            except Exception as e:  # noqa - it could be observed before the operation and cannot be observed after it
+                rec.ev()
+                rec.violation("state-changed", f"after read-only operation #{k} '{label}' the chart's public attributes can no longer be read: "
+                              f"{harness.exc_str(e)}", {"text": text, "ops": ops[:k + 1], "opseed": seed_key, "want": case.get("want")},
+                              f"state-changed-by:{label}")
+                return
             rec.ev()
             rec.cls("op:" + label)
             if label in ("subscript:absent", "nps:absent_instrument", "nps:absent_difficulty", "nps:noteless", "nps:bad_interval", "query_bad"):
